@@ -212,6 +212,25 @@ fn request_stream(tier: Tier, seed: u64) -> (Vec<Request>, Vec<(&'static str, us
             v.push(Request::Parse(s));
         }
     }
+    // the exhaustive short-name set of C08 / C10, for the two types with a name rule
+    {
+        use crate::props::c10::{name_from_index, names_total, NAME_ALPHABET};
+        let max = tier.pick(4, 5);
+        for ty in ["pypi", "nuget"] {
+            for i in 0..names_total(NAME_ALPHABET, max) {
+                let t = crate::spell::Tuple {
+                    ty: ty.into(),
+                    ns: vec![],
+                    name: name_from_index(NAME_ALPHABET, max, i),
+                    version: None,
+                    quals: vec![],
+                    checksum: vec![],
+                    subpath: vec![],
+                };
+                v.push(Request::Parse(crate::spell::spell_plain(&t)));
+            }
+        }
+    }
     parts.push(("token-language", v.len()));
     // the random parts are generated in parallel, each from its own fixed seed, and concatenated
     // in a fixed order: the stream is a function of (tier, seed) only
@@ -421,7 +440,7 @@ pub fn prop() -> Prop {
     Prop {
         id: "C17",
         sections,
-        rule: "One deterministic request stream (the bounded token language at L = 3 / 4, generated legal and single-fault \
+        rule: "One deterministic request stream (the bounded token language at L = 3 / 4, every pypi / nuget name up to length 4 / 5 over the 11-letter name alphabet, generated legal and single-fault \
                spellings, token soup, mutated conformance strings, builder inputs with arbitrary text) is answered by the \
                same line-protocol server built four times: no features, package-type, package-type+smartstring (default), \
                default+serde. Oracle (differential): identical outcome lines (Ok + type + accessors + canonical string, or \
